@@ -1,6 +1,1148 @@
-//! C12 — not built yet.
+//! C12 — dynamic update (RFC 2136) on the real `SqliteZoneHandler`.
+//!
+//! A history is `begin <origin> <rec>*`, then `upd P <rec>* U <rec>*` / `raw <rec>*` / `pre <rec>*`
+//! lines, then `end`.  `upd` runs `verify_prerequisites` → `pre_scan` → `update_records(.., true)` in the
+//! order `ZoneHandler::update` does (authorisation is C13's subject).  After every line the zone
+//! (`records()`, map order, Vec order inside a set), the SOA serial and the result are printed.
+//!
+//! The oracle is a reference implementation written from the RFC 2136 pseudocode (§3.2.5, §3.4.1.3,
+//! §3.4.2.7) over a flat set of RRs, plus the zone invariants and the serial clause of the property.
+use std::collections::BTreeSet;
+
+use hickory_net::runtime::TokioRuntimeProvider;
+use hickory_net::xfer::Protocol;
+use hickory_proto::op::{Message, OpCode, Query, ResponseCode};
+use hickory_proto::rr::TSigner;
+use hickory_proto::rr::rdata::tsig::TsigAlgorithm;
+use hickory_server::server::Request;
+use hickory_server::zone_handler::ZoneHandler;
+use hickory_proto::rr::rdata::SOA;
+use hickory_proto::rr::{DNSClass, Name, RData, Record, RecordType};
+use hickory_proto::serialize::binary::{BinDecodable, BinDecoder, BinEncodable, BinEncoder};
+use hickory_server::store::in_memory::InMemoryZoneHandler;
+use hickory_server::store::sqlite::SqliteZoneHandler;
+use hickory_server::zone_handler::{AxfrPolicy, ZoneType};
+
 use crate::common::*;
 
-pub fn run(_o: &Opts, rec: &mut Recorder) {
-    rec.rule = "stub".into();
+pub const T_A: u16 = 1;
+pub const T_NS: u16 = 2;
+pub const T_CNAME: u16 = 5;
+pub const T_SOA: u16 = 6;
+pub const T_TXT: u16 = 16;
+pub const T_AAAA: u16 = 28;
+pub const T_IXFR: u16 = 251;
+pub const T_AXFR: u16 = 252;
+pub const T_ANY: u16 = 255;
+pub const C_IN: u16 = 1;
+pub const C_CH: u16 = 3;
+pub const C_NONE: u16 = 254;
+pub const C_ANY: u16 = 255;
+
+pub type Handler = SqliteZoneHandler<TokioRuntimeProvider>;
+
+// ------------------------------------------------------------------------------------------------
+// record tokens  <name>,<type>,<class>,<ttl>,<rdata>
+// ------------------------------------------------------------------------------------------------
+
+/// the SOA fields other than the serial, abstracted to one id on the case line
+fn soa_rest(id: u32) -> (Name, Name, i32, i32, i32, u32) {
+    let n = |s: &str| Name::from_ascii(s).unwrap();
+    match id {
+        0 => (n("ns1.example.com."), n("admin.example.com."), 3600, 600, 86400, 300),
+        1 => (n("ns1.example.com."), n("admin.example.com."), 3600, 600, 86400, 60),
+        _ => (n("ns2.example.com."), n("hostmaster.example.com."), 7200, 900, 1209600, 3600),
+    }
+}
+
+fn soa_rest_id(s: &SOA) -> u32 {
+    for id in 0..3 {
+        let (m, r, a, b, c, d) = soa_rest(id);
+        if s.mname == m && s.rname == r && s.refresh == a && s.retry == b && s.expire == c && s.minimum == d {
+            return id;
+        }
+    }
+    99
+}
+
+pub fn rdata_tok(d: &RData) -> String {
+    match d {
+        RData::Update0(_) => "-".into(),
+        RData::SOA(s) => format!("s{}.{}", s.serial, soa_rest_id(s)),
+        d => {
+            let mut buf = Vec::new();
+            {
+                let mut enc = BinEncoder::new(&mut buf);
+                d.emit(&mut enc).expect("rdata emit");
+            }
+            format!("x{}", hex(&buf))
+        }
+    }
+}
+
+/// RDATA token as the reference compares it: the domain name inside NS / CNAME RDATA ignores ASCII case
+/// (RFC 4343; a length octet <= 63 is never a letter, so lower-casing the octets lower-cases the labels)
+pub fn norm_rd(rtype: u16, rd: String) -> String {
+    if (rtype == T_NS || rtype == T_CNAME) && rd.starts_with('x') {
+        if let Some(b) = unhex(&rd[1..]) {
+            let l: Vec<u8> = b.iter().map(|c| c.to_ascii_lowercase()).collect();
+            return format!("x{}", hex(&l));
+        }
+    }
+    rd
+}
+
+pub fn rec_tok(r: &Record) -> String {
+    format!("{},{},{},{},{}", name_tok(&r.name), u16::from(r.record_type()), u16::from(r.dns_class), r.ttl, rdata_tok(&r.data))
+}
+
+pub fn parse_rec(tok: &str) -> Option<Record> {
+    let p: Vec<&str> = tok.split(',').collect();
+    if p.len() != 5 {
+        return None;
+    }
+    let name = parse_name(p[0])?;
+    let rtype: u16 = p[1].parse().ok()?;
+    let class: u16 = p[2].parse().ok()?;
+    let ttl: u32 = p[3].parse().ok()?;
+    let mut rec = if p[4] == "-" {
+        Record::update0(name, ttl, RecordType::from(rtype))
+    } else if let Some(s) = p[4].strip_prefix('s') {
+        let (serial, rest) = s.split_once('.')?;
+        let (m, r, a, b, c, d) = soa_rest(rest.parse().ok()?);
+        if rtype != T_SOA {
+            return None;
+        }
+        Record::from_rdata(name, ttl, RData::SOA(SOA::new(m, r, serial.parse().ok()?, a, b, c, d)))
+    } else if let Some(h) = p[4].strip_prefix('x') {
+        // through the real wire decoder: name type class ttl rdlength rdata
+        let rd = unhex(h)?;
+        if rd.is_empty() {
+            return None;
+        }
+        let mut wire = Vec::new();
+        {
+            let mut enc = BinEncoder::new(&mut wire);
+            name.emit(&mut enc).ok()?;
+        }
+        wire.extend_from_slice(&rtype.to_be_bytes());
+        wire.extend_from_slice(&C_IN.to_be_bytes());
+        wire.extend_from_slice(&ttl.to_be_bytes());
+        wire.extend_from_slice(&(rd.len() as u16).to_be_bytes());
+        wire.extend_from_slice(&rd);
+        let mut dec = BinDecoder::new(&wire);
+        let mut r = Record::read(&mut dec).ok()?;
+        r.name = name; // keep the letter case / fqdn flag of the token
+        r
+    } else {
+        return None;
+    };
+    rec.dns_class = DNSClass::from(class);
+    Some(rec)
+}
+
+// ------------------------------------------------------------------------------------------------
+// the handler under test
+// ------------------------------------------------------------------------------------------------
+
+pub fn rt() -> tokio::runtime::Runtime {
+    tokio::runtime::Builder::new_current_thread().enable_all().build().expect("runtime")
+}
+
+pub fn new_handler(origin: &Name, recs: &[Record]) -> Handler {
+    let mut mem = InMemoryZoneHandler::<TokioRuntimeProvider>::empty(origin.clone(), ZoneType::Primary, AxfrPolicy::Deny, None);
+    for r in recs {
+        mem.upsert_mut(r.clone(), 0);
+    }
+    let mut h = SqliteZoneHandler::new(mem, AxfrPolicy::Deny, true, false);
+    h.set_tsig_signers(vec![signer()]);
+    h
+}
+
+/// one RR of the observed zone
+#[derive(Clone, Debug, PartialEq, Eq, PartialOrd, Ord)]
+pub struct RR {
+    pub name: String, // lower-case name token
+    pub rtype: u16,
+    pub ttl: u32,
+    pub rd: String, // rdata token
+}
+
+impl RR {
+    pub fn soa_serial(&self) -> Option<u32> {
+        self.rd.strip_prefix('s')?.split_once('.')?.0.parse().ok()
+    }
+    fn soa_masked(&self) -> RR {
+        let mut r = self.clone();
+        if let Some(s) = self.rd.strip_prefix('s') {
+            if let Some((_, rest)) = s.split_once('.') {
+                r.rd = format!("s*.{rest}");
+            }
+        }
+        r
+    }
+}
+
+/// what `records()` shows: canonical dump (for the model diff), the flat RR set and the keys whose
+/// `RecordSet` is empty (left behind by `RecordSet::remove`)
+#[derive(Clone, Debug, Default, PartialEq)]
+pub struct Snap {
+    pub dump: String,
+    pub rrs: Vec<RR>,
+    pub ghosts: Vec<(String, u16)>,
+    pub serial: u32,
+}
+
+pub fn snapshot(rt: &tokio::runtime::Runtime, h: &Handler) -> Snap {
+    rt.block_on(async {
+        let recs = h.records().await;
+        let mut parts = Vec::new();
+        let mut rrs = Vec::new();
+        let mut ghosts = Vec::new();
+        for (k, set) in recs.iter() {
+            let kn = name_tok(&Name::from(k.name()));
+            let t = u16::from(k.record_type);
+            let mut items = Vec::new();
+            for r in set.records_without_rrsigs() {
+                let rd = rdata_tok(&r.data);
+                items.push(format!("{}:{}", r.ttl, rd));
+                rrs.push(RR { name: kn.clone(), rtype: t, ttl: r.ttl, rd: norm_rd(t, rd) });
+            }
+            if items.is_empty() {
+                ghosts.push((kn.clone(), t));
+            }
+            parts.push(format!("{kn}/{t}={}", items.join(";")));
+        }
+        drop(recs);
+        let serial = h.serial().await;
+        Snap { dump: if parts.is_empty() { "-".into() } else { parts.join(" ") }, rrs, ghosts, serial }
+    })
+}
+
+pub fn rc_tok(c: ResponseCode) -> &'static str {
+    match c {
+        ResponseCode::FormErr => "FORMERR",
+        ResponseCode::ServFail => "SERVFAIL",
+        ResponseCode::NXDomain => "NXDOMAIN",
+        ResponseCode::NotImp => "NOTIMP",
+        ResponseCode::Refused => "REFUSED",
+        ResponseCode::YXDomain => "YXDOMAIN",
+        ResponseCode::YXRRSet => "YXRRSET",
+        ResponseCode::NXRRSet => "NXRRSET",
+        ResponseCode::NotAuth => "NOTAUTH",
+        ResponseCode::NotZone => "NOTZONE",
+        _ => "OTHER",
+    }
+}
+
+/// (stage, result token).  Mirrors `ZoneHandler::update` after authorisation.
+pub fn run_update(rt: &tokio::runtime::Runtime, h: &Handler, pre: &[Record], upd: &[Record]) -> (&'static str, String) {
+    let r = catch(|| {
+        rt.block_on(async {
+            if let Err(c) = h.verify_prerequisites(pre).await {
+                return ("prereq", rc_tok(c).to_string());
+            }
+            if let Err(c) = h.pre_scan(upd).await {
+                return ("prescan", rc_tok(c).to_string());
+            }
+            match h.update_records(upd, true).await {
+                Ok(true) => ("apply", "ok1".to_string()),
+                Ok(false) => ("apply", "ok0".to_string()),
+                Err(c) => ("apply", rc_tok(c).to_string()),
+            }
+        })
+    });
+    match r {
+        Ok(x) => x,
+        Err(_) => ("apply", "panic".to_string()),
+    }
+}
+
+/// the TSIG key every `updf` message is signed with (authorisation itself is C13's subject)
+pub fn signer() -> TSigner {
+    TSigner::new(b"0123456789abcdef0123456789abcdef".to_vec(), TsigAlgorithm::HmacSha256, Name::from_ascii("update-key.").unwrap(), 300).expect("tsigner")
+}
+
+pub const NOW: u64 = 1_700_000_000;
+
+/// a signed UPDATE message on the wire, parsed back into a `Request` as the server does
+pub fn build_request(origin: &Name, pre: &[Record], upd: &[Record], signer: &TSigner) -> Option<Request> {
+    let mut zone = Query::new(origin.clone(), RecordType::SOA);
+    zone.set_query_class(DNSClass::IN);
+    let mut m = Message::query();
+    m.id = 4711;
+    m.op_code = OpCode::Update;
+    m.recursion_desired = false;
+    m.add_query(zone);
+    m.add_answers(pre.iter().cloned());
+    m.add_authorities(upd.iter().cloned());
+    m.finalize(signer, NOW).ok()?;
+    let bytes = m.to_vec().ok()?;
+    Request::from_bytes(bytes, "127.0.0.1:5300".parse().unwrap(), Protocol::Udp).ok()
+}
+
+/// the whole `ZoneHandler::update` (authorise → prerequisites → prescan → apply)
+pub fn run_update_full(rt: &tokio::runtime::Runtime, h: &Handler, origin: &Name, pre: &[Record], upd: &[Record]) -> Option<String> {
+    let req = build_request(origin, pre, upd, &signer())?;
+    Some(match catch(|| rt.block_on(h.update(&req, NOW))) {
+        Ok((Ok(true), _)) => "ok1".to_string(),
+        Ok((Ok(false), _)) => "ok0".to_string(),
+        Ok((Err(c), _)) => rc_tok(c).to_string(),
+        Err(_) => "panic".to_string(),
+    })
+}
+
+// ------------------------------------------------------------------------------------------------
+// reference implementation of RFC 2136 (from the RFC's pseudocode; flat set of RRs)
+// ------------------------------------------------------------------------------------------------
+
+/// one RR of a message, in the reference's vocabulary
+#[derive(Clone, Debug)]
+pub struct MRR {
+    pub name: String, // lower-case name token
+    pub in_zone: bool,
+    pub rtype: u16,
+    pub class: u16,
+    pub ttl: u32,
+    pub rd: String, // "-" = RDLENGTH 0
+}
+
+fn lower_name(n: &Name) -> Name {
+    n.to_lowercase()
+}
+
+pub fn mrr(origin: &Name, r: &Record) -> MRR {
+    let ln = lower_name(&r.name);
+    // RFC 2136 §1.2 zone_of: the name is at or below the zone name (label-wise suffix)
+    let ol: Vec<Vec<u8>> = lower_name(origin).iter().map(|l| l.to_vec()).collect();
+    let nl: Vec<Vec<u8>> = ln.iter().map(|l| l.to_vec()).collect();
+    let in_zone = nl.len() >= ol.len() && nl[nl.len() - ol.len()..] == ol[..];
+    let rtype = u16::from(r.record_type());
+    MRR { name: name_tok(&ln), in_zone, rtype, class: u16::from(r.dns_class), ttl: r.ttl, rd: norm_rd(rtype, rdata_tok(&r.data)) }
+}
+
+/// RFC 1982 serial comparison, 32 bit: a < b
+pub fn serial_lt(a: u32, b: u32) -> bool {
+    a != b && ((a < b && b - a < 0x8000_0000) || (a > b && a - b > 0x8000_0000))
+}
+
+fn zone_name(z: &[RR], name: &str) -> bool {
+    z.iter().any(|r| r.name == name)
+}
+fn zone_rrset<'a>(z: &'a [RR], name: &str, t: u16) -> Vec<&'a RR> {
+    z.iter().filter(|r| r.name == name && r.rtype == t).collect()
+}
+
+/// §3.2.5: every rcode that some prerequisite raises (empty = prerequisites satisfied)
+pub fn ref_prereq(z: &[RR], pre: &[MRR]) -> BTreeSet<&'static str> {
+    let mut errs = BTreeSet::new();
+    let mut temp: Vec<&MRR> = vec![];
+    for rr in pre {
+        if rr.ttl != 0 {
+            errs.insert("FORMERR");
+            continue;
+        }
+        if !rr.in_zone {
+            errs.insert("NOTZONE");
+            continue;
+        }
+        if rr.class == C_ANY {
+            if rr.rd != "-" {
+                errs.insert("FORMERR");
+            } else if rr.rtype == T_ANY {
+                if !zone_name(z, &rr.name) {
+                    errs.insert("NXDOMAIN");
+                }
+            } else if zone_rrset(z, &rr.name, rr.rtype).is_empty() {
+                errs.insert("NXRRSET");
+            }
+        } else if rr.class == C_NONE {
+            if rr.rd != "-" {
+                errs.insert("FORMERR");
+            } else if rr.rtype == T_ANY {
+                if zone_name(z, &rr.name) {
+                    errs.insert("YXDOMAIN");
+                }
+            } else if !zone_rrset(z, &rr.name, rr.rtype).is_empty() {
+                errs.insert("YXRRSET");
+            }
+        } else if rr.class == C_IN {
+            temp.push(rr);
+        } else {
+            errs.insert("FORMERR");
+        }
+    }
+    // for rrset in temp: if zone_rrset<name,type> != rrset → NXRRSET   (set equality on RDATA)
+    let keys: BTreeSet<(String, u16)> = temp.iter().map(|r| (r.name.clone(), r.rtype)).collect();
+    for (n, t) in keys {
+        let want: BTreeSet<&str> = temp.iter().filter(|r| r.name == n && r.rtype == t).map(|r| r.rd.as_str()).collect();
+        let have: BTreeSet<&str> = zone_rrset(z, &n, t).iter().map(|r| r.rd.as_str()).collect();
+        if want != have {
+            errs.insert("NXRRSET");
+        }
+    }
+    errs
+}
+
+fn is_meta(t: u16) -> bool {
+    // ANY | AXFR | MAILA | MAILB | IXFR (QUERY metatypes)
+    (251..=255).contains(&t)
+}
+
+/// §3.4.1.3
+pub fn ref_prescan(upd: &[MRR]) -> BTreeSet<&'static str> {
+    let mut errs = BTreeSet::new();
+    for rr in upd {
+        if !rr.in_zone {
+            errs.insert("NOTZONE");
+        } else if rr.class == C_IN {
+            if is_meta(rr.rtype) {
+                errs.insert("FORMERR");
+            }
+        } else if rr.class == C_ANY {
+            if rr.ttl != 0 || rr.rd != "-" || (is_meta(rr.rtype) && rr.rtype != T_ANY) {
+                errs.insert("FORMERR");
+            }
+        } else if rr.class == C_NONE {
+            if rr.ttl != 0 || is_meta(rr.rtype) {
+                errs.insert("FORMERR");
+            }
+        } else {
+            errs.insert("FORMERR");
+        }
+    }
+    errs
+}
+
+/// The two places where RFC 2136's text and its pseudocode differ; both readings are accepted.
+#[derive(Clone, Copy, Debug)]
+pub struct Variant {
+    /// §3.4.2.2 text: an SOA with *equal* serial is ignored; pseudocode (`>`): it replaces
+    pub soa_equal_replaces: bool,
+    /// §3.4.2.4 text: SOA / last-NS deletions are ignored only at the zone name; pseudocode: at any name
+    pub protect_any_name: bool,
+    /// RFC 1982 leaves serials exactly 2^31 apart incomparable; either outcome is accepted
+    pub soa_undefined_replaces: bool,
+}
+
+pub const VARIANTS: [Variant; 8] = [
+    Variant { soa_equal_replaces: false, protect_any_name: false, soa_undefined_replaces: false },
+    Variant { soa_equal_replaces: false, protect_any_name: true, soa_undefined_replaces: false },
+    Variant { soa_equal_replaces: true, protect_any_name: false, soa_undefined_replaces: false },
+    Variant { soa_equal_replaces: true, protect_any_name: true, soa_undefined_replaces: false },
+    Variant { soa_equal_replaces: false, protect_any_name: false, soa_undefined_replaces: true },
+    Variant { soa_equal_replaces: false, protect_any_name: true, soa_undefined_replaces: true },
+    Variant { soa_equal_replaces: true, protect_any_name: false, soa_undefined_replaces: true },
+    Variant { soa_equal_replaces: true, protect_any_name: true, soa_undefined_replaces: true },
+];
+
+/// §3.4.2.7 — the zone's RRs after the Update Section (before any automatic serial bump)
+pub fn ref_apply(z: &[RR], zname: &str, upd: &[MRR], v: Variant) -> Vec<RR> {
+    ref_apply_steps(z, zname, upd, v).0
+}
+
+/// also: did any single Update RR change the zone (even if a later one undid it)?
+pub fn ref_apply_steps(z: &[RR], zname: &str, upd: &[MRR], v: Variant) -> (Vec<RR>, bool) {
+    let mut z: Vec<RR> = z.to_vec();
+    let mut touched = false;
+    for rr in upd {
+        let before: BTreeSet<RR> = z.iter().cloned().collect();
+        z = ref_apply_one(z, zname, rr, v);
+        if before != z.iter().cloned().collect::<BTreeSet<RR>>() {
+            touched = true;
+        }
+    }
+    (z, touched)
+}
+
+fn ref_apply_one(mut z: Vec<RR>, zname: &str, rr: &MRR, v: Variant) -> Vec<RR> {
+    'rr: for rr in std::iter::once(rr) {
+        if rr.class == C_IN {
+            if rr.rtype == T_CNAME {
+                if z.iter().any(|r| r.name == rr.name && r.rtype != T_CNAME) {
+                    continue 'rr;
+                }
+            } else if z.iter().any(|r| r.name == rr.name && r.rtype == T_CNAME) {
+                continue 'rr;
+            }
+            let new = RR { name: rr.name.clone(), rtype: rr.rtype, ttl: rr.ttl, rd: rr.rd.clone() };
+            if rr.rtype == T_SOA {
+                let cur = z.iter().find(|r| r.name == rr.name && r.rtype == T_SOA);
+                let (Some(cur), Some(ns)) = (cur, new.soa_serial()) else { continue 'rr };
+                let zs = cur.soa_serial().unwrap_or(0);
+                // ignored if the new serial is lower (RFC 1982) — or, by the text, equal
+                let undefined = ns.wrapping_sub(zs) == 0x8000_0000;
+                if serial_lt(ns, zs) || (ns == zs && !v.soa_equal_replaces) || (undefined && !v.soa_undefined_replaces) {
+                    continue 'rr;
+                }
+            }
+            for zrr in z.iter_mut() {
+                if zrr.name == rr.name && zrr.rtype == rr.rtype && (rr.rtype == T_CNAME || rr.rtype == T_SOA || zrr.rd == rr.rd) {
+                    *zrr = new;
+                    continue 'rr;
+                }
+            }
+            z.push(new);
+        } else if rr.class == C_ANY {
+            if rr.rtype == T_ANY {
+                if rr.name == zname {
+                    z.retain(|r| r.name != rr.name || r.rtype == T_SOA || r.rtype == T_NS);
+                } else {
+                    z.retain(|r| r.name != rr.name);
+                }
+            } else if rr.name == zname && (rr.rtype == T_SOA || rr.rtype == T_NS) {
+                continue 'rr;
+            } else {
+                z.retain(|r| !(r.name == rr.name && r.rtype == rr.rtype));
+            }
+        } else if rr.class == C_NONE {
+            let guarded = v.protect_any_name || rr.name == zname;
+            if rr.rtype == T_SOA && guarded {
+                continue 'rr;
+            }
+            if rr.rtype == T_NS && guarded {
+                let set = zone_rrset(&z, &rr.name, T_NS);
+                if set.len() == 1 && set[0].rd == rr.rd {
+                    continue 'rr;
+                }
+            }
+            z.retain(|r| !(r.name == rr.name && r.rtype == rr.rtype && r.rd == rr.rd));
+        }
+    }
+    z
+}
+
+fn as_set(z: &[RR], mask_serial_at: Option<&str>) -> BTreeSet<RR> {
+    z.iter()
+        .map(|r| if r.rtype == T_SOA && Some(r.name.as_str()) == mask_serial_at { r.soa_masked() } else { r.clone() })
+        .collect()
+}
+
+// ------------------------------------------------------------------------------------------------
+// classes of the known deviations that are still open, computed from (zone before, prerequisites).
+// (Seven other deviations found by this check were repaired in /repo — known-findings.json `fixed` —
+// and are ordinary violations again.)
+// ------------------------------------------------------------------------------------------------
+
+pub const CL_PRE_LOOKUP: &str = "prereq-uses-query-lookup";
+pub const CL_PRE_SUBSET: &str = "prereq-value-dependent-subset";
+
+fn parent_tok(n: &str) -> Option<String> {
+    // "F:aa.bb.cc" → "F:bb.cc"
+    let rest = n.strip_prefix("F:")?;
+    if rest.is_empty() {
+        return None;
+    }
+    Some(match rest.split_once('.') {
+        Some((_, p)) => format!("F:{p}"),
+        None => "F:".to_string(),
+    })
+}
+
+struct Triggers {
+    pre_lookup: bool,
+    pre_subset: bool,
+}
+
+fn triggers(before: &Snap, zname: &str, pre: &[MRR]) -> Triggers {
+    let z = &before.rrs;
+    let mut t = Triggers { pre_lookup: false, pre_subset: false };
+    for rr in pre {
+        if !rr.in_zone {
+            continue;
+        }
+        // CNAME at the name, a delegation at or above it (below the apex), or a wildcard that covers it
+        if rr.rtype != T_CNAME && z.iter().any(|r| r.name == rr.name && r.rtype == T_CNAME) {
+            t.pre_lookup = true;
+        }
+        let mut cur = Some(rr.name.clone());
+        while let Some(n) = cur {
+            if n == zname || n == "F:" {
+                break;
+            }
+            if z.iter().any(|r| r.name == n && r.rtype == T_NS) {
+                t.pre_lookup = true;
+            }
+            cur = parent_tok(&n);
+        }
+        if !zone_name(z, &rr.name) || zone_rrset(z, &rr.name, rr.rtype).is_empty() {
+            let mut cur = parent_tok(&rr.name);
+            while let Some(n) = cur {
+                let w = if n == "F:" { "F:2a".to_string() } else { format!("F:2a.{}", &n[2..]) };
+                if zone_name(z, &w) {
+                    t.pre_lookup = true;
+                }
+                cur = parent_tok(&n);
+            }
+        }
+        if rr.class == C_IN {
+            let have: BTreeSet<&str> = zone_rrset(z, &rr.name, rr.rtype).iter().map(|r| r.rd.as_str()).collect();
+            let want: BTreeSet<&str> = pre.iter().filter(|r| r.class == C_IN && r.name == rr.name && r.rtype == rr.rtype).map(|r| r.rd.as_str()).collect();
+            if want.is_subset(&have) && want != have {
+                t.pre_subset = true;
+            }
+        }
+    }
+    t
+}
+
+fn first<'a>(c: &[(bool, &'a str)]) -> &'a str {
+    c.iter().find(|x| x.0).map(|x| x.1).unwrap_or("")
+}
+
+// ------------------------------------------------------------------------------------------------
+// oracle
+// ------------------------------------------------------------------------------------------------
+
+pub struct Verdict {
+    pub fails: Vec<(String, String)>, // (what, class)
+    pub changed: bool,
+    pub accepted: bool,
+}
+
+/// zone invariants of the property, on the observed zone
+pub fn check_invariants(after: &Snap, zname: &str) -> Vec<(&'static str, String)> {
+    let mut v = vec![];
+    let soas: Vec<&RR> = after.rrs.iter().filter(|r| r.rtype == T_SOA).collect();
+    let apex_soa = soas.iter().filter(|r| r.name == zname).count();
+    if apex_soa != 1 {
+        v.push(("apex-soa", format!("zone has {apex_soa} SOA records at the apex (must be exactly one)")));
+    }
+    if soas.len() > apex_soa {
+        v.push(("extra-soa", format!("zone holds {} SOA record(s) away from the apex", soas.len() - apex_soa)));
+    }
+    if !after.rrs.iter().any(|r| r.name == zname && r.rtype == T_NS) {
+        v.push(("apex-ns", "zone has no NS at the apex".to_string()));
+    }
+    for r in after.rrs.iter().filter(|r| r.rtype == T_CNAME) {
+        if after.rrs.iter().any(|o| o.name == r.name && o.rtype != T_CNAME) {
+            v.push(("cname", format!("{} holds a CNAME together with other data", r.name)));
+            break;
+        }
+    }
+    v
+}
+
+pub fn judge(origin: &Name, before: &Snap, after: &Snap, pre: &[Record], upd: &[Record], stage: &str, res: &str) -> Verdict {
+    let zname = name_tok(&lower_name(origin));
+    let pre_m: Vec<MRR> = pre.iter().map(|r| mrr(origin, r)).collect();
+    let upd_m: Vec<MRR> = upd.iter().map(|r| mrr(origin, r)).collect();
+    let t = triggers(before, &zname, &pre_m);
+    let mut fails: Vec<(String, String)> = vec![];
+    let accepted = stage == "apply" && (res == "ok0" || res == "ok1");
+    let changed = as_set(&before.rrs, Some(&zname)) != as_set(&after.rrs, Some(&zname));
+
+    if res == "panic" {
+        fails.push(("update panicked".into(), "".into()));
+    }
+    // --- prerequisites judged against the zone as it is now
+    let pe = ref_prereq(&before.rrs, &pre_m);
+    let pre_cls = first(&[(t.pre_lookup, CL_PRE_LOOKUP), (t.pre_subset, CL_PRE_SUBSET)]);
+    if stage == "prereq" {
+        if pe.is_empty() {
+            fails.push((format!("prerequisites hold on the current zone (RFC 2136 §3.2) but the update was rejected with {res}"), pre_cls.into()));
+        } else if !pe.contains(res) {
+            fails.push((format!("prerequisite failure answered with {res}; RFC 2136 §3.2.5 gives one of {pe:?}"), pre_cls.into()));
+        }
+    } else if !pe.is_empty() {
+        fails.push((format!("a prerequisite fails on the current zone ({pe:?}) but the message passed prerequisite checking"), pre_cls.into()));
+    }
+    // --- prescan
+    if stage != "prereq" {
+        let se = ref_prescan(&upd_m);
+        if stage == "prescan" {
+            if se.is_empty() {
+                fails.push((format!("update section is well-formed (RFC 2136 §3.4.1) but was rejected with {res}"), "".into()));
+            } else if !se.contains(res) {
+                fails.push((format!("prescan failure answered with {res}; RFC 2136 §3.4.1.3 gives one of {se:?}"), "".into()));
+            }
+        } else if !se.is_empty() {
+            fails.push((format!("update section must be rejected by the prescan ({se:?}) but was processed"), "".into()));
+        }
+    }
+    // --- a rejected message changes nothing
+    if !accepted && res != "panic" && (before.rrs != after.rrs || before.serial != after.serial) {
+        fails.push((format!("message answered {res} at stage {stage} changed the zone"), "".into()));
+    }
+    // --- an accepted message leaves the RRset contents of §3.4.2
+    if accepted {
+        let got = as_set(&after.rrs, Some(&zname));
+        let ok = VARIANTS.iter().any(|v| as_set(&ref_apply(&before.rrs, &zname, &upd_m, *v), Some(&zname)) == got);
+        if !ok {
+            let want = as_set(&ref_apply(&before.rrs, &zname, &upd_m, VARIANTS[1]), Some(&zname));
+            let missing: Vec<String> = want.difference(&got).take(3).map(|r| format!("{}/{} {}:{}", r.name, r.rtype, r.ttl, r.rd)).collect();
+            let extra: Vec<String> = got.difference(&want).take(3).map(|r| format!("{}/{} {}:{}", r.name, r.rtype, r.ttl, r.rd)).collect();
+            let cls = "";
+            fails.push((format!("zone after the update differs from RFC 2136 §3.4.2: missing {missing:?} unexpected {extra:?}"), cls.into()));
+        }
+    }
+    // --- invariants after every message
+    for (_kind, what) in check_invariants(after, &zname) {
+        fails.push((what, "".into()));
+    }
+    // --- the serial has strictly advanced (RFC 1982) iff the content changed
+    if res != "panic" {
+        let explicit_soa = upd_m.iter().any(|r| r.class == C_IN && r.rtype == T_SOA && r.name == zname);
+        // advanced in one RFC 1982 step, or along the chain of explicit SOA serials of the message (each of them
+        // newer than the one before; "newer" is not transitive over more than 2^31) and a final +1
+        let mut cur = before.serial;
+        let mut steps = 0;
+        for r in upd_m.iter().filter(|r| r.class == C_IN && r.rtype == T_SOA && r.name == zname) {
+            let ns = (RR { name: String::new(), rtype: T_SOA, ttl: 0, rd: r.rd.clone() }).soa_serial().unwrap_or(0);
+            if serial_lt(cur, ns) {
+                cur = ns;
+                steps += 1;
+            }
+        }
+        let via_explicit = steps > 0 && (after.serial == cur || after.serial == cur.wrapping_add(1));
+        let adv = serial_lt(before.serial, after.serial) || via_explicit;
+        let cls = "";
+        if changed && !adv {
+            fails.push((format!("zone content changed but the SOA serial did not advance ({} → {})", before.serial, after.serial), cls.into()));
+        }
+        // "unchanged": no single Update RR changes the zone under any accepted reading of §3.4.2 (a message
+        // whose RRs change the zone and undo it again may or may not bump the serial)
+        let touched = VARIANTS.iter().any(|v| ref_apply_steps(&before.rrs, &zname, &upd_m, *v).1);
+        if !changed && !touched && after.serial != before.serial && !(explicit_soa && accepted && adv) {
+            fails.push((format!("zone content unchanged but the SOA serial moved ({} → {})", before.serial, after.serial), cls.into()));
+        }
+    }
+    Verdict { fails, changed, accepted }
+}
+
+// ------------------------------------------------------------------------------------------------
+// executing a history
+// ------------------------------------------------------------------------------------------------
+
+pub struct Hist {
+    pub rt: tokio::runtime::Runtime,
+    pub origin: Name,
+    pub h: Option<Handler>,
+    /// fed every message through the three public calls; `updf` compares the real `update()` with it
+    pub twin: Option<Handler>,
+    pub changes: u32,
+}
+
+pub fn split_pu<'a>(t: &'a [&'a str]) -> Option<(Vec<Record>, Vec<Record>)> {
+    if t.first() != Some(&"P") {
+        return None;
+    }
+    let u = t.iter().position(|x| *x == "U")?;
+    let p: Option<Vec<Record>> = t[1..u].iter().map(|x| parse_rec(x)).collect();
+    let q: Option<Vec<Record>> = t[u + 1..].iter().map(|x| parse_rec(x)).collect();
+    Some((p?, q?))
+}
+
+pub fn exec(line: &str, hist: &mut Hist, rec: &mut Recorder) {
+    let t: Vec<&str> = line.split_whitespace().collect();
+    match t.as_slice() {
+        ["begin", origin, recs @ ..] => {
+            let (Some(o), Some(rs)) = (parse_name(origin), recs.iter().map(|x| parse_rec(x)).collect::<Option<Vec<_>>>()) else {
+                rec.stat("skipped.unparsable-case");
+                return;
+            };
+            let h = new_handler(&o, &rs);
+            let s = snapshot(&hist.rt, &h);
+            rec.case(line.to_string(), format!("begin {} 0 {}", s.serial, s.dump));
+            hist.twin = Some(new_handler(&o, &rs));
+            hist.origin = o;
+            hist.h = Some(h);
+            hist.changes = 0;
+            rec.stat("op.begin");
+        }
+        ["end"] => {
+            rec.case(line.to_string(), "end".into());
+            hist.h = None;
+            hist.twin = None;
+        }
+        ["updf", rest @ ..] => {
+            // the real `ZoneHandler::update` on a signed wire message; the twin takes the three public calls
+            let (Some(h), Some(tw), Some((p, u))) = (hist.h.as_ref(), hist.twin.as_ref(), split_pu(rest)) else {
+                rec.stat("skipped.unparsable-case");
+                return;
+            };
+            let before = snapshot(&hist.rt, h);
+            let Some(res) = run_update_full(&hist.rt, h, &hist.origin, &p, &u) else {
+                rec.stat("skipped.unencodable-message");
+                return;
+            };
+            let after = snapshot(&hist.rt, h);
+            let (tstage, tres) = run_update(&hist.rt, tw, &p, &u);
+            let tafter = snapshot(&hist.rt, tw);
+            let idx = rec.case(line.to_string(), format!("full {res} {} 0 {}", after.serial, after.dump));
+            rec.stat("op.updf");
+            rec.stat(&format!("updf.{res}"));
+            if res != tres || after != tafter {
+                rec.fail(idx, format!("ZoneHandler::update answered {res} (serial {}); verify_prerequisites → pre_scan → update_records answers {tstage}/{tres} (serial {}) or leaves a different zone", after.serial, tafter.serial), "");
+            }
+            let v = judge(&hist.origin, &before, &after, &p, &u, tstage, &res);
+            if v.changed {
+                hist.changes += 1;
+            }
+            if v.changed || hist.changes > 0 {
+                rec.nontrivial(idx);
+            }
+            for (what, class) in v.fails {
+                rec.stat(&format!("oracle.fail.{}", if class.is_empty() { "UNCLASSIFIED" } else { &class }));
+                rec.fail(idx, what, &class);
+            }
+        }
+        ["upd", rest @ ..] => {
+            let (Some(h), Some((p, u))) = (hist.h.as_ref(), split_pu(rest)) else {
+                rec.stat("skipped.unparsable-case");
+                return;
+            };
+            let before = snapshot(&hist.rt, h);
+            let (stage, res) = run_update(&hist.rt, h, &p, &u);
+            let after = snapshot(&hist.rt, h);
+            if let Some(tw) = hist.twin.as_ref() {
+                let _ = run_update(&hist.rt, tw, &p, &u);
+            }
+            let idx = rec.case(line.to_string(), format!("{stage} {res} {} 0 {}", after.serial, after.dump));
+            let v = judge(&hist.origin, &before, &after, &p, &u, stage, &res);
+            rec.stat("op.upd");
+            rec.stat(&format!("upd.{stage}.{res}"));
+            rec.stat(&format!("upd.size.prereq{}.update{}", p.len().min(3), u.len().min(5)));
+            for r in p.iter() {
+                rec.stat(&format!("prereq.class{}.{}", u16::from(r.dns_class), if r.record_type() == RecordType::ANY { "ANY" } else { "rrset" }));
+            }
+            for r in u.iter() {
+                rec.stat(&format!("update.class{}.type{}", u16::from(r.dns_class), u16::from(r.record_type())));
+            }
+            if !after.ghosts.is_empty() {
+                rec.stat("zone.has-emptied-rrset");
+            }
+            if v.changed {
+                hist.changes += 1;
+            }
+            // non-trivial: the message changed the zone, or it was judged (either way) after an earlier change
+            if v.changed || hist.changes > 0 {
+                rec.nontrivial(idx);
+            }
+            for (what, class) in v.fails {
+                rec.stat(&format!("oracle.fail.{}", if class.is_empty() { "UNCLASSIFIED" } else { &class }));
+                rec.fail(idx, what, &class);
+            }
+        }
+        ["raw", recs @ ..] => {
+            let (Some(h), Some(u)) = (hist.h.as_ref(), recs.iter().map(|x| parse_rec(x)).collect::<Option<Vec<_>>>()) else {
+                rec.stat("skipped.unparsable-case");
+                return;
+            };
+            let res = match catch(|| hist.rt.block_on(h.update_records(&u, true))) {
+                Ok(Ok(true)) => "ok1".to_string(),
+                Ok(Ok(false)) => "ok0".to_string(),
+                Ok(Err(c)) => rc_tok(c).to_string(),
+                Err(_) => "panic".to_string(),
+            };
+            let after = snapshot(&hist.rt, h);
+            if let Some(tw) = hist.twin.as_ref() {
+                let _ = catch(|| hist.rt.block_on(tw.update_records(&u, true)));
+            }
+            rec.case(line.to_string(), format!("raw {res} {} 0 {}", after.serial, after.dump));
+            rec.stat("op.raw");
+            rec.stat(&format!("raw.{res}"));
+        }
+        ["pre", recs @ ..] => {
+            let (Some(h), Some(p)) = (hist.h.as_ref(), recs.iter().map(|x| parse_rec(x)).collect::<Option<Vec<_>>>()) else {
+                rec.stat("skipped.unparsable-case");
+                return;
+            };
+            let before = snapshot(&hist.rt, h);
+            let res = match catch(|| hist.rt.block_on(h.verify_prerequisites(&p))) {
+                Ok(Ok(())) => "ok".to_string(),
+                Ok(Err(c)) => rc_tok(c).to_string(),
+                Err(_) => "panic".to_string(),
+            };
+            let idx = rec.case(line.to_string(), format!("pre {res}"));
+            rec.stat("op.pre");
+            rec.stat(&format!("pre.{res}"));
+            let zname = name_tok(&lower_name(&hist.origin));
+            let pm: Vec<MRR> = p.iter().map(|r| mrr(&hist.origin, r)).collect();
+            let pe = ref_prereq(&before.rrs, &pm);
+            let t = triggers(&before, &zname, &pm);
+            let cls = first(&[(t.pre_lookup, CL_PRE_LOOKUP), (t.pre_subset, CL_PRE_SUBSET)]);
+            let bad = if res == "ok" { !pe.is_empty() } else { !pe.contains(res.as_str()) };
+            if bad {
+                rec.stat(&format!("oracle.fail.{}", if cls.is_empty() { "UNCLASSIFIED" } else { cls }));
+                rec.fail(idx, format!("verify_prerequisites answered {res}; RFC 2136 §3.2.5 on the current zone gives {pe:?}"), cls);
+            }
+            if hist.changes > 0 {
+                rec.nontrivial(idx);
+            }
+        }
+        _ => rec.stat("skipped.unparsable-case"),
+    }
+}
+
+// ------------------------------------------------------------------------------------------------
+// generator
+// ------------------------------------------------------------------------------------------------
+
+pub struct Universe {
+    pub origin: Name,
+}
+
+fn n(s: &str) -> Name {
+    Name::from_ascii(s).unwrap()
+}
+
+pub const NAMES_IN: [&str; 10] = [
+    "example.com.",
+    "a.example.com.",
+    "b.example.com.",
+    "www.example.com.",
+    "alias.example.com.",
+    "sub.example.com.",
+    "x.sub.example.com.",
+    "*.w.example.com.",
+    "q.w.example.com.",
+    "A.Example.COM.",
+];
+pub const NAMES_OUT: [&str; 2] = ["other.org.", "com."];
+
+pub const SERIALS: [u32; 12] = [0, 1, 50, 100, 101, 200, 0x7FFF_FFFF, 0x8000_0000, 0x8000_0064, 0xFFFF_FFF0, 0xFFFF_FFFE, 0xFFFF_FFFF];
+
+/// a random spelling of a name: as is / every letter's case flipped at random / all upper case.
+/// Case is preserved on the wire; the server must treat all spellings alike (RFC 4343).
+pub fn cased(rng: &mut Rng, s: &str) -> String {
+    match rng.below(10) {
+        0..=4 => s.to_string(),
+        5..=7 => s.chars().map(|c| if rng.chance(1, 2) { c.to_ascii_uppercase() } else { c.to_ascii_lowercase() }).collect(),
+        8 => s.to_ascii_uppercase(),
+        _ => {
+            // only the zone part in upper case
+            match s.find("example.com.") {
+                Some(i) => format!("{}EXAMPLE.COM.", &s[..i]),
+                None => s.to_ascii_uppercase(),
+            }
+        }
+    }
+}
+
+fn rdata_for(rng: &mut Rng, t: u16) -> RData {
+    use hickory_proto::rr::rdata::{A, AAAA, CNAME, NS, TXT};
+    match t {
+        T_A => RData::A(A::new(10, 0, 0, rng.range(1, 3) as u8)),
+        T_AAAA => RData::AAAA(AAAA::new(0x2001, 0xdb8, 0, 0, 0, 0, 0, rng.range(1, 2) as u16)),
+        T_TXT => RData::TXT(TXT::new(vec![format!("t{}", rng.range(1, 2))])),
+        T_NS => {
+            let t = *rng.pick(&["ns1.example.com.", "ns2.example.com.", "ns.sub.example.com."]);
+            RData::NS(NS(n(&cased(rng, t))))
+        }
+        T_CNAME => {
+            let t = *rng.pick(&["a.example.com.", "b.example.com."]);
+            RData::CNAME(CNAME(n(&cased(rng, t))))
+        }
+        _ => RData::TXT(TXT::new(vec!["zz".to_string()])),
+    }
+}
+
+fn soa_rec(name: &str, ttl: u32, serial: u32, rest: u32) -> Record {
+    let (m, r, a, b, c, d) = soa_rest(rest);
+    Record::from_rdata(n(name), ttl, RData::SOA(SOA::new(m, r, serial, a, b, c, d)))
+}
+
+fn with_class(mut r: Record, c: u16) -> Record {
+    r.dns_class = DNSClass::from(c);
+    r
+}
+
+fn pick_name(rng: &mut Rng) -> &'static str {
+    if rng.chance(1, 25) { *rng.pick(&NAMES_OUT) } else { *rng.pick(&NAMES_IN) }
+}
+
+fn pick_type(rng: &mut Rng) -> u16 {
+    *rng.pick(&[T_A, T_A, T_TXT, T_NS, T_CNAME, T_AAAA, T_SOA])
+}
+
+fn pick_ttl(rng: &mut Rng) -> u32 {
+    *rng.pick(&[300, 300, 600, 0])
+}
+
+/// an initial zone: SOA + NS at the apex, hosts, an alias, a delegation with glue, optionally a wildcard
+pub fn gen_zone(rng: &mut Rng) -> Vec<Record> {
+    let serial = if rng.chance(1, 3) { *rng.pick(&SERIALS) } else { 100 };
+    let mut z = vec![soa_rec("example.com.", 3600, serial, 0)];
+    let up = rng.chance(1, 4);
+    let mk = move |name: &str, ttl: u32, d: RData| Record::from_rdata(n(&if up { name.to_ascii_uppercase() } else { name.to_string() }), ttl, d);
+    use hickory_proto::rr::rdata::{A, CNAME, NS, TXT};
+    z.push(mk("example.com.", 3600, RData::NS(NS(n("ns1.example.com.")))));
+    if rng.chance(2, 3) {
+        z.push(mk("example.com.", 3600, RData::NS(NS(n("ns2.example.com.")))));
+    }
+    if rng.chance(4, 5) {
+        z.push(mk("a.example.com.", 300, RData::A(A::new(10, 0, 0, 1))));
+        if rng.chance(1, 2) {
+            z.push(mk("a.example.com.", 300, RData::A(A::new(10, 0, 0, 2))));
+        }
+        if rng.chance(1, 2) {
+            z.push(mk("a.example.com.", 300, RData::TXT(TXT::new(vec!["t1".to_string()]))));
+        }
+    }
+    if rng.chance(1, 2) {
+        z.push(mk("b.example.com.", 600, RData::A(A::new(10, 0, 0, 2))));
+    }
+    if rng.chance(2, 3) {
+        z.push(mk("alias.example.com.", 300, RData::CNAME(CNAME(n("a.example.com.")))));
+    }
+    if rng.chance(1, 2) {
+        z.push(mk("sub.example.com.", 300, RData::NS(NS(n("ns.sub.example.com.")))));
+        if rng.chance(1, 2) {
+            z.push(mk("sub.example.com.", 300, RData::NS(NS(n("ns2.example.com.")))));
+        }
+        if rng.chance(1, 2) {
+            z.push(mk("x.sub.example.com.", 300, RData::A(A::new(10, 0, 0, 3))));
+        }
+    }
+    if rng.chance(1, 3) {
+        z.push(mk("*.w.example.com.", 300, RData::TXT(TXT::new(vec!["t1".to_string()]))));
+    }
+    z
+}
+
+pub fn gen_prereq(rng: &mut Rng) -> Record {
+    let picked = pick_name(rng);
+    let name = n(&cased(rng, picked));
+    let t = pick_type(rng);
+    let form = rng.below(100);
+    let mut r = if form < 18 {
+        with_class(Record::update0(name, 0, RecordType::ANY), C_ANY) // name is in use
+    } else if form < 38 {
+        with_class(Record::update0(name, 0, RecordType::from(t)), C_ANY) // rrset exists (value independent)
+    } else if form < 54 {
+        with_class(Record::update0(name, 0, RecordType::ANY), C_NONE) // name is not in use
+    } else if form < 72 {
+        with_class(Record::update0(name, 0, RecordType::from(t)), C_NONE) // rrset does not exist
+    } else if form < 92 {
+        // rrset exists (value dependent)
+        if t == T_SOA { with_class(soa_rec(&name.to_ascii(), 0, *rng.pick(&SERIALS), 0), C_IN) } else { Record::from_rdata(name, 0, rdata_for(rng, t)) }
+    } else if form < 94 {
+        with_class(Record::from_rdata(name, 0, rdata_for(rng, T_A)), C_ANY) // RDATA with class ANY
+    } else if form < 96 {
+        with_class(Record::from_rdata(name, 0, rdata_for(rng, T_A)), C_NONE) // RDATA with class NONE
+    } else if form < 98 {
+        with_class(Record::update0(name, 0, RecordType::from(t)), C_CH) // foreign class
+    } else {
+        with_class(Record::update0(name, 0, RecordType::from(t)), C_IN) // zone class, empty RDATA
+    };
+    if rng.chance(1, 40) {
+        r.ttl = 5; // TTL must be 0
+    }
+    r
+}
+
+pub fn gen_update(rng: &mut Rng) -> Record {
+    let picked = pick_name(rng);
+    let name_s = cased(rng, picked);
+    let name_s = name_s.as_str();
+    let name = n(name_s);
+    let t = pick_type(rng);
+    let form = rng.below(100);
+    if form < 50 {
+        // add to an RRset
+        if t == T_SOA {
+            let apex = cased(rng, "example.com.");
+            let at = if rng.chance(4, 5) { apex.as_str() } else { name_s };
+            let serial = *rng.pick(&SERIALS);
+            soa_rec(at, *rng.pick(&[3600, 300]), serial, rng.below(2) as u32)
+        } else {
+            Record::from_rdata(name, pick_ttl(rng), rdata_for(rng, t))
+        }
+    } else if form < 62 {
+        with_class(Record::update0(name, 0, RecordType::from(t)), C_ANY) // delete an RRset
+    } else if form < 70 {
+        with_class(Record::update0(name, 0, RecordType::ANY), C_ANY) // delete all RRsets from a name
+    } else if form < 90 {
+        // delete an RR from an RRset
+        if t == T_SOA { with_class(soa_rec(name_s, 0, *rng.pick(&SERIALS), 0), C_NONE) } else { with_class(Record::from_rdata(name, 0, rdata_for(rng, t)), C_NONE) }
+    } else {
+        // malformed forms
+        match rng.below(8) {
+            0 => with_class(Record::from_rdata(name, 0, rdata_for(rng, T_A)), C_ANY), // RDATA with class ANY
+            1 => with_class(Record::from_rdata(name, 7, rdata_for(rng, T_A)), C_NONE), // TTL with class NONE
+            2 => with_class(Record::update0(name, 7, RecordType::from(t)), C_ANY),     // TTL with class ANY
+            3 => with_class(Record::from_rdata(name, 300, rdata_for(rng, T_A)), C_CH), // foreign class
+            4 => with_class(Record::update0(name, 300, RecordType::ANY), C_IN),        // add of type ANY
+            5 => with_class(Record::update0(name, 0, RecordType::AXFR), *rng.pick(&[C_IN, C_ANY, C_NONE])),
+            6 => with_class(Record::update0(name, 0, RecordType::ANY), C_NONE),        // NONE / ANY
+            _ => with_class(Record::update0(name, 0, RecordType::from(t)), C_NONE),    // NONE with empty RDATA
+        }
+    }
+}
+
+pub fn gen_msg(rng: &mut Rng) -> String {
+    let np = *rng.pick(&[0, 0, 0, 1, 1, 2]);
+    let nu = rng.range(1, 4);
+    let mut s = String::from("upd P");
+    for _ in 0..np {
+        s.push(' ');
+        s.push_str(&rec_tok(&gen_prereq(rng)));
+    }
+    s.push_str(" U");
+    for _ in 0..nu {
+        s.push(' ');
+        s.push_str(&rec_tok(&gen_update(rng)));
+    }
+    s
+}
+
+pub fn gen_begin(rng: &mut Rng, kw: &str) -> String {
+    let z = gen_zone(rng);
+    let mut s = format!("{kw} {}", name_tok(&n("example.com.")));
+    for r in &z {
+        s.push(' ');
+        s.push_str(&rec_tok(r));
+    }
+    s
+}
+
+fn gen_history(rng: &mut Rng) -> Vec<String> {
+    let mut v = vec![gen_begin(rng, "begin")];
+    let len = rng.range(1, 6);
+    for i in 0..len {
+        // `raw` (update_records without the prescan, outside the property: it can plant out-of-zone
+        // records) only ever ends a history, so that no judged message meets its aftermath
+        let k = if i + 1 == len { rng.below(20) } else { rng.below(18) };
+        if k < 16 {
+            let m = gen_msg(rng);
+            // one message in five goes through the real `update()` as a TSIG-signed wire message
+            v.push(if rng.chance(1, 5) { m.replacen("upd ", "updf ", 1) } else { m });
+        } else if k < 18 {
+            let np = rng.range(1, 2);
+            let mut s = String::from("pre");
+            for _ in 0..np {
+                s.push(' ');
+                s.push_str(&rec_tok(&gen_prereq(rng)));
+            }
+            v.push(s);
+        } else {
+            let nu = rng.range(1, 4);
+            let mut s = String::from("raw");
+            for _ in 0..nu {
+                s.push(' ');
+                s.push_str(&rec_tok(&gen_update(rng)));
+            }
+            v.push(s);
+        }
+    }
+    v.push("end".into());
+    v
+}
+
+pub fn run(o: &Opts, rec: &mut Recorder) {
+    rec.rule = "an `upd`/`pre` line that changed the zone or was judged after an earlier change of the same history (distinct by case text)".into();
+    let mut hist = Hist { rt: rt(), origin: Name::root(), h: None, twin: None, changes: 0 };
+    for l in &o.pre_lines {
+        exec(l, &mut hist, rec);
+    }
+    rec.corpus_cases = rec.cases.len();
+    let mut rng = Rng::new(o.seed);
+    let histories = o.n(20_000, 400_000);
+    for _ in 0..histories {
+        let mut r = rng.fork();
+        for l in gen_history(&mut r) {
+            exec(&l, &mut hist, rec);
+        }
+    }
 }
